@@ -289,3 +289,22 @@ Fixpoint py_eq (a b : val) {struct a} : bool :=
       | _, _ => false
       end
   end.
+
+(* ---- well-formed hashable keys (the domain of the C07 / C08 theorems) --------------------- *)
+
+(* the hashable keys (well-formed: Go integers in their type's range, floats as 64-bit patterns).
+   The name is historical: the predicate once excluded floats. *)
+Definition wfb (f : N) : bool := (f <? 18446744073709551616)%N.
+Fixpoint nf_key (v : val) : bool :=
+  match v with
+  | VNone | VBool _ | VStr _ | VBStr _ | VBytes _ | VClass _ _ | VUser _ | VBig _ _ => true
+  | VInt z => in_int64 z
+  | VUint z => in_uint64 z
+  | VFloat f => wfb f
+  | VComplex re im => wfb re && wfb im
+  | VTuple l => forallb nf_key l
+  | VCall _ _ l => forallb nf_key l
+  | VRef p => nf_key p
+  | _ => false
+  end.
+
